@@ -29,17 +29,24 @@ def main():
     disagreeing = []
     oracle_dis = []
     if driver_ok:
+        recorded = {}
+        plain_stream = chk.stream
+        def recording_stream(name, lines, outs, *a, **k):
+            recorded[name] = (lines, outs)
+            return plain_stream(name, lines, outs, *a, **k)
+        chk.stream = recording_stream
         res = C.run_parse_stream(chk, {k: v for k, v in fam.items() if v})
         for name, ss in res.items():
             disagreeing += ss
         sample = fam['corpus'] + fam['boundary'] + fam['multi'][:3000] + fam['malformed'][:2000] + fam['single'][:1500]
         disagreeing += C.run_nowarn_stream(chk, sample)
+        chk.stream = plain_stream
         if tie_ok:
-            # the same inputs through the parser whose Conversion.__init__ is the definition regenerated from the source (driver ops gparse / gparse-nowarn)
-            for name, strings in fam.items():
-                if strings:
-                    chk.stream('pyfmt-' + name + '-generated', ['pyfmt gparse ' + C.hexchars(x) for x in strings], [C.impl_parse(x) for x in strings])
-            chk.stream('pyfmt-nowarn-generated', ['pyfmt gparse-nowarn ' + C.hexchars(x) for x in sample], [C.impl_parse(x, C.nowarn_class()) for x in sample])
+            # the same inputs (and the same outputs of the real code) through the parser whose Conversion.__init__ is the definition regenerated from
+            # the source (driver ops gparse / gparse-nowarn)
+            for name, (lines, outs) in recorded.items():
+                if lines and lines[0].startswith(('pyfmt parse ', 'pyfmt parse-nowarn ')):
+                    chk.stream(name + '-generated', [l.replace('pyfmt parse', 'pyfmt gparse', 1) for l in lines], outs)
         disagreeing += C.run_plain_stream(chk, fam['corpus'] + fam['boundary'] + fam['context'] + fam['short'] + fam['multi'] + fam['malformed'])
         # the reference model of the interpreter against the interpreter
         ostr = fam['corpus'] + fam['boundary'] + fam['short'] + fam['context'][::3] + fam['single'] + fam['multi'] + fam['malformed']
